@@ -137,10 +137,43 @@ func c01run(r *kernel.Run) {
 		return false
 	}
 	// try delivers an (altered) envelope to R as an entry of group gi; a successful open must be an authentic tuple
+	// genuineFor returns the authentic message (if any) that an altered envelope displaces: same group and counter
+	genuineFor := func(gi int, env []byte) *c01sealed {
+		_, h, err := R.st.OpenEnvelopeHeaders(env, groups[gi])
+		if err != nil {
+			return nil
+		}
+		for i := range msgs {
+			if msgs[i].group == gi && msgs[i].counter == h.Counter && bytes.Equal(h.DevicePk, sdevRaw(gi)) {
+				return &msgs[i]
+			}
+		}
+		return nil
+	}
 	try := func(cat, what string, gi int, env []byte, mustFail bool) bool {
-		h, pl, err := c01open(ctx, R, groups[gi], env)
+		// the altered entry is delivered twice to one and the same receiver state (a log entry is re-read on
+		// restart and on listing), then the genuine message it tried to displace must still open there
+		p, err := vnewPartyOn(R.name, R.disk.Clone(), R.window, R.oosWin)
+		if err != nil {
+			r.Infra("clone: %v", err)
+			return false
+		}
+		h, pl, err := vopen(ctx, p, groups[gi], env, vcid(env))
+		if err != nil {
+			h, pl, err = vopen(ctx, p, groups[gi], env, vcid(env))
+			if err == nil {
+				r.Probe("second_attempt_differs")
+			}
+		}
 		r.Step()
 		if err != nil {
+			if g := genuineFor(gi, env); g != nil && !bytes.Equal(g.env, env) {
+				if _, gpl, gerr := vopen(ctx, p, groups[gi], g.env, vcid(g.env)); gerr != nil || !bytes.Equal(gpl, g.payload) {
+					r.Violate("authenticity", "rejected-forgery-displaces-genuine-message/"+cat, "%s: the altered envelope was rejected, but afterwards the genuine message with that counter (%d) no longer opens on the same receiver: %v", what, g.counter, gerr)
+					return false
+				}
+				r.Probe("genuine_opens_after_rejected_forgery")
+			}
 			return true
 		}
 		r.Probe("altered_envelope_opened_to_authentic_tuple")
@@ -296,6 +329,52 @@ func c01run(r *kernel.Run) {
 				}
 			}
 			r.Probe("member_forgery_attempted")
+		}
+	}
+	// 5. forgery attributed to the OPENING device: B (who holds R's chain key, like every member) replaces a message
+	// R itself sealed by another payload under R's genuine message key; R's own store (its other views of the log,
+	// a reopen, a listing) must reject it
+	if bMember {
+		gg := groups[0]
+		bmd, _ := B.md(gg)
+		rmd, _ := R.md(gg)
+		annR, err := R.st.GetShareableChainKey(ctx, gg, bmd.Member())
+		if err != nil {
+			r.Infra("annR: %v", err)
+			return
+		}
+		if err := B.st.RegisterChainKey(ctx, gg, rmd.Device(), annR); err != nil {
+			r.Infra("B registers R: %v", err)
+			return
+		}
+		own := []byte("sealed-by-R-itself")
+		envOwn, err := R.st.SealEnvelope(ctx, gg, vpayload("", own))
+		if err != nil {
+			r.Infra("R seals: %v", err)
+			return
+		}
+		_, hOwn, _ := R.st.OpenEnvelopeHeaders(envOwn, gg)
+		gpk, _ := gg.GetPubKey()
+		if mk, err := B.st.getPrecomputedMessageKey(ctx, gpk, rmd.Device(), hOwn.Counter); err == nil {
+			evil := vpayload("", []byte("forged-as-R-by-B"))
+			box := secretbox.Seal(nil, evil, uint64AsNonce(hOwn.Counter), (*[32]byte)(mk))
+			bsig, _ := bmd.DeviceSign(evil)
+			for _, sig := range [][]byte{bsig, hOwn.Sig, nil, kernel.DetBytes(77, 64)} {
+				hb, _ := proto.Marshal(&protocoltypes.MessageHeaders{Counter: hOwn.Counter, DevicePk: hOwn.DevicePk, Sig: sig})
+				nonce, _ := cryptoutil.GenerateNonce()
+				f, _ := proto.Marshal(&protocoltypes.MessageEnvelope{MessageHeaders: secretbox.Seal(nil, hb, nonce, gg.GetSharedSecret()), Message: box, Nonce: nonce[:]})
+				q, _ := vnewPartyOn(R.name, R.disk.Clone(), R.window, R.oosWin)
+				r.Fault("member_forgery_as_opening_device")
+				if _, pl, err := vopen(ctx, q, gg, f, vcid(f)); err == nil {
+					r.Violate("authenticity", "delivered-with-wrong-content-or-attribution/forgery-as-opening-device", "a payload forged by a fellow member under the receiver's OWN message key (counter %d) is delivered by the receiver's own store as its own message (%q)", hOwn.Counter, pl)
+					return
+				}
+				if _, pl, err := vopen(ctx, q, gg, envOwn, vcid(envOwn)); err != nil || !bytes.Equal(pl, own) {
+					r.Violate("authenticity", "rejected-forgery-displaces-genuine-message/forgery-as-opening-device", "after rejecting the forgery the device can no longer open its own message: %v", err)
+					return
+				}
+			}
+			r.Probe("forgery_as_opening_device_attempted")
 		}
 	}
 	_ = disk.New
